@@ -78,18 +78,38 @@ func (r *Rec) Guard(name string, c any, timeout time.Duration, f func() *Verdict
 		}()
 		done <- f()
 	}()
-	timer := time.NewTimer(timeout)
-	defer timer.Stop()
-	select {
-	case v := <-done:
-		return v
-	case <-timer.C:
-		fmt.Printf("HANG-CANDIDATE property=%s oracle=%s (no answer after %v; the driver re-runs the case alone)\n", r.ID, name, timeout)
+	// The watchdog's clock is the CPU time this process has consumed, not the wall clock: a
+	// non-terminating computation burns CPU, whereas a machine that is merely busy (many checks
+	// at once) stretches wall time without the case making less progress per CPU second. A case
+	// that sits idle (a deadlock) is caught by a wall-clock bound: ten times the budget, at most the
+	// budget plus five minutes.
+	cpu0, wall0 := cpuTime(), time.Now()
+	wallMax := min(10*timeout, timeout+5*time.Minute)
+	tick := time.NewTicker(250 * time.Millisecond)
+	defer tick.Stop()
+	for {
+		select {
+		case v := <-done:
+			return v
+		case <-tick.C:
+		}
+		if cpuTime()-cpu0 < timeout && time.Since(wall0) < wallMax {
+			continue
+		}
+		fmt.Printf("HANG-CANDIDATE property=%s oracle=%s (no answer after %v of CPU time / %v of wall time; the driver re-runs the case alone)\n", r.ID, name, cpuTime()-cpu0, time.Since(wall0).Round(time.Second))
 		r.mu.Lock()
 		r.infra = append(r.infra, "watchdog expired in-process; see HANG-CANDIDATE")
 		r.mu.Unlock()
 		r.writeEvidence()
 		os.Exit(3)
-		return nil
 	}
+}
+
+// cpuTime is the user+system CPU time consumed by this process so far.
+func cpuTime() time.Duration {
+	var ru syscall.Rusage
+	if err := syscall.Getrusage(syscall.RUSAGE_SELF, &ru); err != nil {
+		return 0
+	}
+	return time.Duration(ru.Utime.Nano() + ru.Stime.Nano())
 }
